@@ -31,3 +31,20 @@ Fixpoint bad_sched (stats : bool) (cs : list (list tid * nat)) (i : nat) : list 
 Definition check_sched_cases (cs : list (list tid * nat)) : list nat :=
   let h := Nat.div (length cs) 2 in
   bad_sched false (firstn h cs) 0 ++ bad_sched true (skipn h cs) h.
+
+(* ---- the lock programs read from the Go source (harness/cmd/c11/locks.go) ----
+   One case = one function that takes a process-wide lock, with its callees expanded: a list of
+   (action, lock number).  The model's verdict for a case: for every lock, the actions on that
+   lock form a non-reentrant program (the premise of C11_lock_progress / C11_lock_completion).
+   A case on which the verdict is "reentrant" is reported by its index. *)
+Definition lproj (l : nat) (p : list (lact * nat)) : list lact :=
+  map fst (filter (fun x => Nat.eqb (snd x) l) p).
+Definition lock_prog_ok (nlocks : nat) (p : list (lact * nat)) : bool :=
+  forallb (fun l => nonreentrant (lproj l p)) (seq 0 nlocks).
+Fixpoint bad_lock_progs (nlocks : nat) (ps : list (list (lact * nat))) (i : nat) : list nat :=
+  match ps with
+  | [] => []
+  | p :: r => (if lock_prog_ok nlocks p then [] else [i]) ++ bad_lock_progs nlocks r (S i)
+  end.
+Definition check_lock_progs (nlocks : nat) (ps : list (list (lact * nat))) : list nat :=
+  bad_lock_progs nlocks ps 0.
